@@ -219,6 +219,10 @@ class Lin(Domain):
         a = args[0] if args else COEF
         if name == 'neg':
             return a
+        if name == 'mul_add' and len(args) == 3:
+            return self.add(self.mul(args[0], args[1], t), args[2], t)
+        if name == 'recip' and len(args) == 1:
+            return self.div(COEF, args[0], t)
         if all(x in (COEF, ZERO) for x in args):
             return COEF
         self.complain('L-nonlinear', 'applies the non-linear function %s to a data-dependent value' % name, t)
